@@ -2571,22 +2571,30 @@ func (d *Document) parseRunProperties(decoder *xml.Decoder, run *Run) error {
 		case xml.StartElement:
 			switch t.Name.Local {
 			case "b":
-				run.Properties.Bold = &Bold{}
+				if toggleIsOn(t.Attr) {
+					run.Properties.Bold = &Bold{}
+				}
 				if err := d.skipElement(decoder, t.Name.Local); err != nil {
 					return err
 				}
 			case "bCs":
-				run.Properties.BoldCs = &BoldCs{}
+				if toggleIsOn(t.Attr) {
+					run.Properties.BoldCs = &BoldCs{}
+				}
 				if err := d.skipElement(decoder, t.Name.Local); err != nil {
 					return err
 				}
 			case "i":
-				run.Properties.Italic = &Italic{}
+				if toggleIsOn(t.Attr) {
+					run.Properties.Italic = &Italic{}
+				}
 				if err := d.skipElement(decoder, t.Name.Local); err != nil {
 					return err
 				}
 			case "iCs":
-				run.Properties.ItalicCs = &ItalicCs{}
+				if toggleIsOn(t.Attr) {
+					run.Properties.ItalicCs = &ItalicCs{}
+				}
 				if err := d.skipElement(decoder, t.Name.Local); err != nil {
 					return err
 				}
@@ -2597,7 +2605,9 @@ func (d *Document) parseRunProperties(decoder *xml.Decoder, run *Run) error {
 					return err
 				}
 			case "strike":
-				run.Properties.Strike = &Strike{}
+				if toggleIsOn(t.Attr) {
+					run.Properties.Strike = &Strike{}
+				}
 				if err := d.skipElement(decoder, t.Name.Local); err != nil {
 					return err
 				}
@@ -2661,6 +2671,16 @@ func (d *Document) parseRunProperties(decoder *xml.Decoder, run *Run) error {
 			}
 		}
 	}
+}
+
+// toggleIsOn 判断开关型属性（w:b、w:i、w:strike 等）是否开启：没有 w:val 即开启，
+// w:val 为 "0"、"false"、"off" 表示显式关闭（例如粗体样式中的非粗体文字）
+func toggleIsOn(attrs []xml.Attr) bool {
+	switch getAttributeValue(attrs, "val") {
+	case "0", "false", "off":
+		return false
+	}
+	return true
 }
 
 // parseTable 解析表格
